@@ -9,7 +9,8 @@ def generate(rng, tier):
     k = 1 if tier == "quick" else 12
     return ([half_open_burst(rng) for _ in range(1000 * k)] + [multi_phase_burst(rng) for _ in range(500 * k)]
             + [random_concurrent(rng) for _ in range(500 * k)] + [classifier_panic_trials(rng) for _ in range(100 * k)]
-            + [half_open_burst(rng, us=True) for _ in range(100 * k)] + [half_open_burst(rng, us=2) for _ in range(80 * k)])
+            + [half_open_burst(rng, us=True) for _ in range(100 * k)] + [half_open_burst(rng, us=2) for _ in range(80 * k)] +
+            [slow_listener(rng) for _ in range(120 * k)])
 
 
 def monitor(s, t):
